@@ -258,6 +258,7 @@ class C17(core.Check):
                         c["moves"][1] = S(rvec(rng, -9, 9))
                     elif "w" in c["moves"][1]:
                         c["moves"][1]["w"] = str(int(c["moves"][1]["w"]) + 2)
+                c["backport"] = rng.random() < 0.5
                 first_free = 0 if c["kind"] == "slink" and not c.get("int_leader") else 1
                 c["how"] = ["assign" if i < first_free else rng.choice(["assign", "iadd", "slice", "index"]) for i in range(len(c["moves"]))]
         # documented rejection: leader on the axis
@@ -399,13 +400,15 @@ class C17(core.Check):
         if k == "tlink":
             arg = conv(case["leader"], case.get("int_leader", False))
             arg0 = np.copy(arg)
-            link = cb.TranslationLink(arg, FV(case["follower"]))
+            farg = np.array(FV(case["follower"]))
+            link = cb.TranslationLink(arg, farg)
             out["ctor_arg_intact"] = bool(np.array_equal(arg, arg0))
             out["after_ctor"] = {"leader": fl(link.leader), "follower": fl(link.follower)}
         elif k == "slink":
             arg = conv(case["leader"], case.get("int_leader", False))
             arg0 = np.copy(arg)
-            link = cb.SymmetryLink(arg, arg0 * 0.0, FV(case["n"]), FV(case["o"]))
+            farg = arg0 * 0.0
+            link = cb.SymmetryLink(arg, farg, FV(case["n"]), FV(case["o"]))
             out["ctor_arg_intact"] = bool(np.array_equal(arg, arg0))
             out["after_ctor"] = {"leader": fl(link.leader), "follower": fl(link.follower)}
             link.update()
@@ -413,7 +416,8 @@ class C17(core.Check):
         else:
             arg = np.array(FV(case["leader"]))
             arg0 = np.copy(arg)
-            link = cb.RotationLink(arg, FV(case["follower"]), FV(case["axis"]), FV(case["o"]))
+            farg = np.array(FV(case["follower"]))
+            link = cb.RotationLink(arg, farg, FV(case["axis"]), FV(case["o"]))
             out["ctor_arg_intact"] = bool(np.array_equal(arg, arg0))
             out["after_ctor"] = {"leader": fl(link.leader), "follower": fl(link.follower)}
         out["steps"] = []
@@ -444,6 +448,12 @@ class C17(core.Check):
             snap = np.copy(owned)
             link.update()
             out["steps"].append(observe(link, owned, snap))
+            if case.get("backport"):
+                # the arrays given to the constructor are the caller's own points (vertex.position): the caller
+                # applies every result to them in place (Vertex.move_to, as the optimizers' backport() does)
+                farg[:] = link.follower
+                if arg.dtype.kind == "f":
+                    arg[:] = snap
         return out
 
     # ------------------------------------------------------------------ model
@@ -726,10 +736,10 @@ class C17(core.Check):
             return f"curve:{case['curve']['c']}:" + ("on" if case["on"] else "off") + (":estimate" if case.get("est") is not None else "")
         if k == "surface":
             return f"surface:{case['surface']}:" + ("on" if case["off"] == 0 else "off") + (":estimate" if case.get("est") is not None else "")
-        if k in ("tlink", "slink") and any(h != "assign" for h in case.get("how", [])):
-            return k + ":in-place-moves"
+        if k in ("tlink", "slink") and (any(h != "assign" for h in case.get("how", [])) or case.get("backport")):
+            return k + (":in-place-moves" if any(h != "assign" for h in case.get("how", [])) else "") + (":caller-applies-results-in-place" if case.get("backport") else "")
         if k == "rlink":
-            return "rlink:" + "+".join(sorted({"exact" if "w" in m else "general" for m in case["moves"]}) or ["on-axis"]) + (":in-place-moves" if any(h != "assign" for h in case.get("how", [])) else "")
+            return "rlink:" + "+".join(sorted({"exact" if "w" in m else "general" for m in case["moves"]}) or ["on-axis"]) + (":in-place-moves" if any(h != "assign" for h in case.get("how", [])) else "") + (":caller-applies-results-in-place" if case.get("backport") else "")
         return k
 
     def nontrivial_key(self, case, impl):
